@@ -688,6 +688,148 @@ fn field_interface(st: &mut Stats) {
     field_bisim!(st, Dual2Vec<f64, f64, Dyn>, f64, Dims::n(1));
 }
 
+
+/// (e) the driver functions: a closure result whose parts are absent must give the same driver output
+/// as the same result written with explicit zero parts - jacobian for ALL 3^m assignments of
+/// {variable, absent constant, explicit-zero constant} to the m = 1..4 output components (static and
+/// dynamic input, n = 2), gradient with both encodings of a constant, hessian with all 4 and
+/// partial_hessian with all 8 presence patterns of a result whose absent parts are zero.
+fn drivers(st: &mut Stats) {
+    use nalgebra::{DMatrix, DVector, Dyn, SMatrix, SVector, U1, U2, U3};
+    use num_dual::*;
+    let z = |v: f64| if v == 0.0 { 0.0f64.to_bits() } else { v.to_bits() };
+    let mut fail = |st: &mut Stats, driver: &str, enc: String, what: String| {
+        st.violation(Violation { sig: format!("driver {driver}"), case: json!({"driver": driver, "encoding": enc}), what });
+    };
+    // ---- jacobian, dynamic and static input of length 2
+    for m in 1..=4usize {
+        let total = 3usize.pow(m as u32);
+        for code in 0..total {
+            let kinds: Vec<usize> = (0..m).map(|r| code / 3usize.pow(r as u32) % 3).collect();
+            let comp = |r: usize, kind: usize, x: &[DualVec<f64, f64, Dyn>]| -> DualVec<f64, f64, Dyn> {
+                match kind {
+                    0 => &x[0] * &x[1] * (r as f64 + 1.5) + &x[0],
+                    1 => DualVec::from_re(r as f64 + 0.25),
+                    _ => DualVec::new(r as f64 + 0.25, Derivative::some(DVector::zeros(2))),
+                }
+            };
+            let xv = DVector::from_vec(vec![1.25f64, -0.5]);
+            let (f, j) = jacobian(|x: DVector<DualVec<f64, f64, Dyn>>| DVector::from_fn(m, |r, _| comp(r, kinds[r], x.as_slice())), xv.clone());
+            let canon: Vec<usize> = kinds.iter().map(|k| if *k == 1 { 2 } else { *k }).collect();
+            let (fc, jc) = jacobian(|x: DVector<DualVec<f64, f64, Dyn>>| DVector::from_fn(m, |r, _| comp(r, canon[r], x.as_slice())), xv);
+            st.evaluations += 2;
+            st.transitions += 2;
+            st.state(hash64(&("jacobian dyn", m, code)));
+            if kinds.contains(&1) {
+                st.nontrivial(hash64(&("jacobian dyn", m, code)));
+            }
+            let same = f.len() == fc.len() && j.shape() == jc.shape() && j.shape() == (m, 2) && f.iter().zip(fc.iter()).all(|(a, b)| z(*a) == z(*b)) && j.iter().zip(jc.iter()).all(|(a, b)| z(*a) == z(*b));
+            st.outcome(hash64(&j.iter().map(|v| z(*v)).collect::<Vec<_>>()));
+            if !same {
+                fail(st, "jacobian (dynamic)", format!("{kinds:?} (0 = variable, 1 = absent constant, 2 = explicit-zero constant)"), format!("J = {:?} with absent parts but {:?} with explicit zeros", j.as_slice(), jc.as_slice()));
+            }
+        }
+    }
+    for code in 0..27usize {
+        let kinds: Vec<usize> = (0..3).map(|r| code / 3usize.pow(r as u32) % 3).collect();
+        let comp = |r: usize, kind: usize, x: &[DualVec<f64, f64, U2>]| -> DualVec<f64, f64, U2> {
+            match kind {
+                0 => &x[0] * &x[1] * (r as f64 + 1.5) + &x[1],
+                1 => DualVec::from_re(r as f64 + 0.25),
+                _ => DualVec::new(r as f64 + 0.25, Derivative::some(SVector::<f64, 2>::zeros())),
+            }
+        };
+        let xv = SVector::<f64, 2>::new(1.25, -0.5);
+        let (_, j): (SVector<f64, 3>, SMatrix<f64, 3, 2>) = jacobian(|x: SVector<DualVec<f64, f64, U2>, 2>| SVector::<_, 3>::from_fn(|r, _| comp(r, kinds[r], x.as_slice())), xv);
+        let canon: Vec<usize> = kinds.iter().map(|k| if *k == 1 { 2 } else { *k }).collect();
+        let (_, jc): (SVector<f64, 3>, SMatrix<f64, 3, 2>) = jacobian(|x: SVector<DualVec<f64, f64, U2>, 2>| SVector::<_, 3>::from_fn(|r, _| comp(r, canon[r], x.as_slice())), xv);
+        st.evaluations += 2;
+        st.transitions += 2;
+        st.state(hash64(&("jacobian static", code)));
+        if kinds.contains(&1) {
+            st.nontrivial(hash64(&("jacobian static", code)));
+        }
+        if !j.iter().zip(jc.iter()).all(|(a, b)| z(*a) == z(*b)) {
+            fail(st, "jacobian (static)", format!("{kinds:?} (0 = variable, 1 = absent constant, 2 = explicit-zero constant)"), format!("J = {:?} with absent parts but {:?} with explicit zeros", j.as_slice(), jc.as_slice()));
+        }
+    }
+    // ---- gradient
+    for n in 0..=3usize {
+        let xv = DVector::from_fn(n, |i, _| i as f64 + 0.5);
+        let (f1, g1) = gradient(|_: DVector<DualVec<f64, f64, Dyn>>| DualVec::from_re(2.5), xv.clone());
+        let (f2, g2) = gradient(|_: DVector<DualVec<f64, f64, Dyn>>| DualVec::new(2.5, Derivative::some(DVector::zeros(n))), xv);
+        st.evaluations += 2;
+        st.state(hash64(&("gradient", n)));
+        st.nontrivial(hash64(&("gradient", n)));
+        if f1 != f2 || g1.len() != n || g2.len() != n || g1.iter().zip(g2.iter()).any(|(a, b)| z(*a) != z(*b)) {
+            fail(st, "gradient", format!("n = {n}"), format!("gradient {:?} for an absent part, {:?} for explicit zeros", g1.as_slice(), g2.as_slice()));
+        }
+    }
+    // ---- hessian: a linear result (v2 = 0) and a constant, every presence pattern of the zero parts
+    for n in 1..=3usize {
+        for lin in [false, true] {
+            let mut outs: Vec<(u32, Vec<u64>)> = Vec::new();
+            for pat in 0..4u32 {
+                if lin && pat & 1 == 0 {
+                    continue; // the gradient of the linear result is non-zero: it has to be present
+                }
+                let xv = DVector::from_fn(n, |i, _| i as f64 + 0.5);
+                let (f, g, h) = hessian(
+                    |_: DVector<Dual2Vec<f64, f64, Dyn>>| {
+                        let v1 = if lin { Derivative::some(nalgebra::RowDVector::from_fn(n, |_, c| c as f64 + 2.0)) } else if pat & 1 != 0 { Derivative::some(nalgebra::RowDVector::zeros(n)) } else { Derivative::none() };
+                        let v2 = if pat & 2 != 0 { Derivative::some(DMatrix::zeros(n, n)) } else { Derivative::none() };
+                        Dual2Vec::new(1.75, v1, v2)
+                    },
+                    xv,
+                );
+                st.evaluations += 1;
+                st.state(hash64(&("hessian", n, lin, pat)));
+                st.nontrivial(hash64(&("hessian", n, lin, pat)));
+                let mut bits = vec![z(f), g.len() as u64, h.nrows() as u64, h.ncols() as u64];
+                bits.extend(g.iter().map(|v| z(*v)));
+                bits.extend(h.iter().map(|v| z(*v)));
+                outs.push((pat, bits));
+            }
+            if let Some((pat, _)) = outs.iter().find(|(_, b)| *b != outs[outs.len() - 1].1) {
+                fail(st, "hessian", format!("n = {n}, linear result = {lin}, presence pattern (bit 0 = v1, bit 1 = v2) {pat}"), "value, gradient or Hessian differ from those of the fully explicit encoding".into());
+            }
+        }
+    }
+    // ---- partial_hessian: a constant and a result linear in x, every presence pattern of the zero parts
+    for lin in [false, true] {
+        let mut outs: Vec<(u32, Vec<u64>)> = Vec::new();
+        for pat in 0..8u32 {
+            if lin && pat & 1 == 0 {
+                continue;
+            }
+            let xv = SVector::<f64, 2>::new(0.5, 1.5);
+            let yv = SVector::<f64, 3>::new(-1.0, 2.0, 0.25);
+            let (f, fx, fy, fxy) = partial_hessian(
+                |_: SVector<HyperDualVec<f64, f64, U2, U3>, 2>, _: SVector<HyperDualVec<f64, f64, U2, U3>, 3>| {
+                    let e1 = if lin { Derivative::some(SVector::<f64, 2>::new(3.0, -4.0)) } else if pat & 1 != 0 { Derivative::some(SVector::<f64, 2>::zeros()) } else { Derivative::none() };
+                    let e2 = if pat & 2 != 0 { Derivative::some(nalgebra::RowSVector::<f64, 3>::zeros()) } else { Derivative::none() };
+                    let e12 = if pat & 4 != 0 { Derivative::some(SMatrix::<f64, 2, 3>::zeros()) } else { Derivative::none() };
+                    HyperDualVec::new(0.75, e1, e2, e12)
+                },
+                xv,
+                yv,
+            );
+            st.evaluations += 1;
+            st.state(hash64(&("partial_hessian", lin, pat)));
+            st.nontrivial(hash64(&("partial_hessian", lin, pat)));
+            let mut bits = vec![z(f)];
+            bits.extend(fx.iter().map(|v| z(*v)));
+            bits.extend(fy.iter().map(|v| z(*v)));
+            bits.extend(fxy.iter().map(|v| z(*v)));
+            outs.push((pat, bits));
+        }
+        if let Some((pat, _)) = outs.iter().find(|(_, b)| *b != outs[outs.len() - 1].1) {
+            fail(st, "partial_hessian", format!("result linear in x = {lin}, presence pattern (bit 0 = eps1, bit 1 = eps2, bit 2 = eps1eps2) {pat}"), "value, gradients or mixed Hessian differ from those of the fully explicit encoding".into());
+        }
+    }
+    let _ = U1;
+}
+
 fn conversions(st: &mut Stats) {
     use nalgebra::{Const, Dyn};
     use num_dual::*;
@@ -789,6 +931,9 @@ fn main() {
     conversions(e.stats);
     field_interface(e.stats);
     derivative_operators(e.stats);
+    if let Err(m) = guarded(|| drivers(e.stats)) {
+        e.stats.violation(Violation { sig: "driver panic".into(), case: json!({}), what: format!("a driver panicked: {m}") });
+    }
     let axes = std::mem::take(&mut e.axes);
     let classes = e.classes_total;
     let capped = axes.iter().any(|a| a["frontier_capped"].as_bool().unwrap_or(false));
@@ -797,7 +942,7 @@ fn main() {
         mode: cli.mode,
         seed: cli.seed,
         start,
-        rule: "abstraction alpha: absent part -> zeros. (a) every operation of a 53-operation alphabet, the checked / unchecked narrowing and identity conversions and 48 methods of nalgebra's field interface on DualVec and Dual2Vec, x alpha-operand tuples (each group zero or non-zero, two real parts) x ALL 2^k encodings of the zero groups as absent or explicit zeros; (b) BFS over histories of 13 accumulator updates (compound assignments with dual and scalar operands, y - acc, y / acc, neg, recip, sqrt) x y in every encoding, from every encoding of the accumulator; a state is an alpha-class (alpha value bits + the set of concrete presence patterns that reach it), de-duplicated per depth. Oracle: alpha(result) is the same number in every slot for all encodings (bisimulation), and equals the exact rational reference where no rounding can occur. Non-trivial = alpha tuple reached through more than one encoding. (d) conversions of vector dual numbers to other widths and to plain floats, nalgebra's field interface incl. ties of the real parts, and every operator form of the public part type Derivative, for every encoding.".into(),
+        rule: "abstraction alpha: absent part -> zeros. (a) every operation of a 53-operation alphabet, the checked / unchecked narrowing and identity conversions and 48 methods of nalgebra's field interface on DualVec and Dual2Vec, x alpha-operand tuples (each group zero or non-zero, two real parts) x ALL 2^k encodings of the zero groups as absent or explicit zeros; (b) BFS over histories of 13 accumulator updates (compound assignments with dual and scalar operands, y - acc, y / acc, neg, recip, sqrt) x y in every encoding, from every encoding of the accumulator; a state is an alpha-class (alpha value bits + the set of concrete presence patterns that reach it), de-duplicated per depth. Oracle: alpha(result) is the same number in every slot for all encodings (bisimulation), and equals the exact rational reference where no rounding can occur. Non-trivial = alpha tuple reached through more than one encoding. (d) conversions of vector dual numbers to other widths and to plain floats, nalgebra's field interface incl. ties of the real parts, and every operator form of the public part type Derivative, for every encoding. (e) the driver functions: jacobian for all 3^m assignments of {variable, absent constant, explicit-zero constant} to m = 1..4 output components (dynamic) and m = 3 (static), gradient of both encodings of a constant for n = 0..3, hessian (4 patterns) and partial_hessian (8 patterns) of constant and linear results - the outputs must not depend on the encoding.".into(),
         assumptions: vec!["signed zeros are identified (0 - r vs -r); NaN equals NaN".into(), "history frontier capped per depth and type when it exceeds the cap (reported as frontier_capped)".into()],
         extra: json!({"axes": axes, "alpha_classes": classes}),
         exhaustive: !capped,
